@@ -3,8 +3,9 @@
    The regular expressions of the logos declaration reach the model as STRINGS (GeneratedTables.v:
    gen_regexes, gen_header_regexes, gen_header_tokens, gen_keywords, gen_punct).  This file gives them
    a meaning: a regular-expression AST with the standard inductive matching relation, a parser from the
-   regex syntax to that AST, and the rule tables (token kind, regular expression) of the two lexers,
-   computed from the generated tables.  proofs/LexSpecProof.v proves that the hand-written scanners of
+   regex syntax to that AST, a normal form (norm) that absorbs harmless re-spellings, and the rule
+   tables (token kind, regular expression in normal form) of the two lexers, computed from the
+   generated tables, next to explicit canonical tables they are compared with up to order.  proofs/LexSpecProof.v proves that the hand-written scanners of
    Lexer.v (lex_one, hlex_one) are the longest-match / priority lexers of these tables. *)
 From DTR Require Import Prelude Ast Generated GeneratedTables Lexer.
 From Coq Require Import String Ascii.
@@ -206,13 +207,148 @@ Fixpoint unescape (s : list ascii) : option text :=
   end.
 
 (* ------------------------------------------------------------------------------------------------ *)
-(* 3. the rule tables                                                                                 *)
+(* 3. a normal form, so that the tables do not depend on how a regular expression is spelled
+
+      - a single character is a one-range class;
+      - the ranges of a class are sorted by lower bound, overlapping and adjacent ranges are merged,
+        empty ranges dropped, \d (kept apart, never expanded) comes last; the negation flag stays;
+      - an alternation of non-negated classes / characters is ONE class (the union);
+      - e+ is e e* ;
+      - concatenations are right-nested and have no empty-word units;
+      - all this recursively.                                                                          *)
+
+Definition range := (N * N)%type.
+
+Definition in_ranges (c : N) (rs : list range) : bool :=
+  existsb (fun r => in_range (fst r) (snd r) c) rs.
+
+Fixpoint ranges_of (items : list citem) : list range :=
+  match items with
+  | [] => []
+  | CRange lo hi :: t => if lo <=? hi then (lo, hi) :: ranges_of t else ranges_of t
+  | CNd :: t => ranges_of t
+  end.
+
+Fixpoint has_nd (items : list citem) : bool :=
+  match items with
+  | [] => false
+  | CNd :: _ => true
+  | _ :: t => has_nd t
+  end.
+
+Fixpoint insert_range (r : range) (rs : list range) : list range :=
+  match rs with
+  | [] => [r]
+  | r' :: t => if fst r <=? fst r' then r :: rs else r' :: insert_range r t
+  end.
+
+Definition sort_ranges (rs : list range) : list range := fold_right insert_range [] rs.
+
+(* merge the current range lo-hi with the following ones as long as they touch it *)
+Fixpoint merge_from (lo hi : N) (rs : list range) : list range :=
+  match rs with
+  | [] => [(lo, hi)]
+  | (lo2, hi2) :: t =>
+    if (lo <=? hi) && (lo2 <=? hi2) && (lo2 <=? hi + 1) && (lo <=? hi2 + 1)
+    then merge_from (N.min lo lo2) (N.max hi hi2) t
+    else (lo, hi) :: merge_from lo2 hi2 t
+  end.
+
+Definition merge_ranges (rs : list range) : list range :=
+  match rs with
+  | [] => []
+  | (lo, hi) :: t => merge_from lo hi t
+  end.
+
+Definition norm_items (items : list citem) : list citem :=
+  map (fun r => CRange (fst r) (snd r)) (merge_ranges (sort_ranges (ranges_of items)))
+  ++ (if has_nd items then [CNd] else []).
+
+(* flattening concatenation: the result is right-nested and has no REps unit when a and b are so *)
+Fixpoint cat_app (a b : re) : re :=
+  match a with
+  | REps => b
+  | RCat x y => cat_app x (cat_app y b)
+  | _ => match b with REps => a | _ => RCat a b end
+  end.
+
+(* alternation: two non-negated classes are one class *)
+Definition mk_alt (a b : re) : re :=
+  match a, b with
+  | RClass false ia, RClass false ib => RClass false (norm_items (ia ++ ib))
+  | _, _ => RAlt a b
+  end.
+
+Fixpoint norm (e : re) : re :=
+  match e with
+  | REps => REps
+  | RChar c => RClass false [CRange c c]
+  | RClass neg items => RClass neg (norm_items items)
+  | RCat a b => cat_app (norm a) (norm b)
+  | RAlt a b => mk_alt (norm a) (norm b)
+  | RStar a => RStar (norm a)
+  | RPlus a => let a' := norm a in cat_app a' (RStar a')
+  end.
+
+(* decidable equality on expressions and rules (for the order-insensitive comparison of tables) *)
+Definition citem_eqb (a b : citem) : bool :=
+  match a, b with
+  | CRange l h, CRange l' h' => (l =? l') && (h =? h')
+  | CNd, CNd => true
+  | _, _ => false
+  end.
+
+Fixpoint list_eqb {A} (eqb : A -> A -> bool) (l1 l2 : list A) : bool :=
+  match l1, l2 with
+  | [], [] => true
+  | x :: t1, y :: t2 => eqb x y && list_eqb eqb t1 t2
+  | _, _ => false
+  end.
+
+Fixpoint re_eqb (a b : re) : bool :=
+  match a, b with
+  | REps, REps => true
+  | RChar c, RChar d => c =? d
+  | RClass n i, RClass n' i' => Bool.eqb n n' && list_eqb citem_eqb i i'
+  | RCat a1 a2, RCat b1 b2 => re_eqb a1 b1 && re_eqb a2 b2
+  | RAlt a1 a2, RAlt b1 b2 => re_eqb a1 b1 && re_eqb a2 b2
+  | RStar a1, RStar b1 => re_eqb a1 b1
+  | RPlus a1, RPlus b1 => re_eqb a1 b1
+  | _, _ => false
+  end.
+
+Definition opt_eqb {A} (eqb : A -> A -> bool) (a b : option A) : bool :=
+  match a, b with
+  | Some x, Some y => eqb x y
+  | None, None => true
+  | _, _ => false
+  end.
+
+Definition htk_eqb (a b : htk) : bool :=
+  match a, b with
+  | HName, HName => true
+  | HEol, HEol => true
+  | _, _ => false
+  end.
+
+Definition incl_b {A} (eqb : A -> A -> bool) (l1 l2 : list A) : bool :=
+  forallb (fun x => existsb (eqb x) l2) l1.
+
+(* ------------------------------------------------------------------------------------------------ *)
+(* 4. the rule tables                                                                                 *)
 
 (* a rule: the kind it produces (None = logos::skip) and its regular expression *)
 Definition rule (K : Type) := (option K * re)%type.
 
 Definition rule_matches {K} (rules : list (rule K)) (k : option K) (w : text) : Prop :=
   exists e, In (k, e) rules /\ re_matches e w.
+
+Definition rule_eqb {K} (keqb : K -> K -> bool) (r1 r2 : rule K) : bool :=
+  opt_eqb keqb (fst r1) (fst r2) && re_eqb (snd r1) (snd r2).
+
+(* the two tables have the same rules, in whatever order and multiplicity *)
+Definition same_rules {K} (keqb : K -> K -> bool) (l1 l2 : list (rule K)) : bool :=
+  incl_b (rule_eqb keqb) l1 l2 && incl_b (rule_eqb keqb) l2 l1.
 
 (* used when a table entry cannot be read: a rule that matches every text, under which none of the
    theorems of LexSpecProof.v could hold (so a misread table can never go unnoticed) *)
@@ -237,13 +373,14 @@ Definition header_kind (n : string) : option (option htk) :=
   else if String.eqb n "WS" then Some None
   else None.
 
-Fixpoint regex_rules_of {K} (kind : string -> option (option K)) (l : list (string * string))
-  : option (list (rule K)) :=
+(* nf = norm for the tables the theorems are about, nf = identity for the raw tables *)
+Fixpoint regex_rules_of {K} (nf : re -> re) (kind : string -> option (option K))
+  (l : list (string * string)) : option (list (rule K)) :=
   match l with
   | [] => Some []
   | (n, s) :: t =>
-    match kind n, parse_re s, regex_rules_of kind t with
-    | Some k, Some e, Some rs => Some ((k, e) :: rs)
+    match kind n, parse_re s, regex_rules_of nf kind t with
+    | Some k, Some e, Some rs => Some ((k, nf e) :: rs)
     | _, _, _ => None
     end
   end.
@@ -262,21 +399,80 @@ Fixpoint token_rules_of {K} (kind : string -> option (option K)) (l : list (stri
 Definition or_poison {K} (bad : option K) (o : option (list (rule K))) : list (rule K) :=
   match o with Some l => l | None => [(bad, re_any)] end.
 
-(* the regex rules of TokenKind, from gen_regexes *)
-Definition regex_rules : option (list (rule tk)) := regex_rules_of regex_kind gen_regexes.
-(* the keywords (gen_keywords already holds code points) and the punctuation, Eol included (gen_punct) *)
+Definition raw (e : re) : re := e.
+
+(* the regex rules of TokenKind, from gen_regexes, in normal form *)
+Definition regex_rules : option (list (rule tk)) := regex_rules_of norm regex_kind gen_regexes.
+Definition raw_regex_rules : option (list (rule tk)) := regex_rules_of raw regex_kind gen_regexes.
+(* the keywords (gen_keywords already holds code points) and the punctuation, Eol included (gen_punct);
+   literal tokens stay the plain concatenation of their characters *)
 Definition keyword_rules : list (rule tk) := map (fun p => (Some (snd p), lit_re (fst p))) gen_keywords.
 Definition punct_rules : list (rule tk) := map (fun p => (Some (snd p), lit_re (s2n (fst p)))) gen_punct.
 
 (* the statement lexer *)
 Definition lex_rules : list (rule tk) :=
   or_poison (Some TError) regex_rules ++ keyword_rules ++ punct_rules.
+(* ... and the same table with the expressions exactly as parse_re returns them *)
+Definition raw_lex_rules : list (rule tk) :=
+  or_poison (Some TError) raw_regex_rules ++ keyword_rules ++ punct_rules.
 
 (* the header lexer *)
-Definition hlex_regex_rules : option (list (rule htk)) := regex_rules_of header_kind gen_header_regexes.
+Definition hlex_regex_rules : option (list (rule htk)) :=
+  regex_rules_of norm header_kind gen_header_regexes.
+Definition raw_hlex_regex_rules : option (list (rule htk)) :=
+  regex_rules_of raw header_kind gen_header_regexes.
 Definition hlex_token_rules : option (list (rule htk)) := token_rules_of header_kind gen_header_tokens.
 Definition hlex_rules : list (rule htk) :=
   or_poison None hlex_regex_rules ++ or_poison None hlex_token_rules.
+Definition raw_hlex_rules : list (rule htk) :=
+  or_poison None raw_hlex_regex_rules ++ or_poison None hlex_token_rules.
+
+(* ---- the tables the proofs are written against: explicit, in normal form, in a fixed order of their
+   own (LexSpecProof.v shows they have the same rules as lex_rules / hlex_rules, whatever the order
+   and the spelling in the source) *)
+Definition pcls (items : list citem) : re := RClass false items.
+
+Definition canon_ident : re :=
+  RCat (pcls [CRange 65 90; CRange 95 95; CRange 97 122])
+       (RStar (pcls [CRange 65 90; CRange 95 95; CRange 97 122; CNd])).
+Definition canon_dec : re := RCat (pcls [CRange 49 57]) (RStar (pcls [CRange 48 57])).
+Definition canon_hex : re :=
+  RCat (pcls [CRange 48 48]) (RCat (pcls [CRange 88 88; CRange 120 120])
+    (RCat (pcls [CRange 48 57; CRange 65 70; CRange 97 102])
+          (RStar (pcls [CRange 48 57; CRange 65 70; CRange 97 102])))).
+Definition canon_bin : re :=
+  RCat (pcls [CRange 48 48]) (RCat (pcls [CRange 66 66; CRange 98 98])
+    (RCat (pcls [CRange 48 49]) (RStar (pcls [CRange 48 49])))).
+Definition canon_oct : re := RCat (pcls [CRange 48 48]) (RStar (pcls [CRange 48 55])).
+Definition canon_ws : re :=
+  RCat (pcls [CRange 9 9; CRange 12 13; CRange 32 32]) (RStar (pcls [CRange 9 9; CRange 12 13; CRange 32 32])).
+Definition canon_comment : re := RCat (pcls [CRange 35 35]) (RStar (RClass true [CRange 10 10])).
+Definition canon_hname : re :=
+  RCat (RClass true [CRange 9 10; CRange 12 13; CRange 32 32])
+       (RStar (RClass true [CRange 9 10; CRange 12 13; CRange 32 32])).
+
+Definition canonical_regex_rules : list (rule tk) :=
+  [ (Some TIdent, canon_ident); (Some TDecInt, canon_dec); (Some THexInt, canon_hex);
+    (Some TBinInt, canon_bin); (Some TOctInt, canon_oct); (None, canon_ws); (None, canon_comment) ].
+
+Definition kw_rule (s : string) (k : tk) : rule tk := (Some k, lit_re (s2n s)).
+
+Definition canonical_lex_rules : list (rule tk) :=
+  canonical_regex_rules ++
+  [ kw_rule "end" TEnd; kw_rule "loop" TLoop; kw_rule "repeat" TRepeat; kw_rule "bits" TBits;
+    kw_rule "let" TLet; kw_rule "resetRandom" TResetRandom; kw_rule "while" TWhile;
+    kw_rule "declare" TDeclare; kw_rule "program" TProgram; kw_rule "init" TInit;
+    kw_rule "memory" TMemory; kw_rule "def" TDef; kw_rule "call" TCall ] ++
+  [ kw_rule "," TComma; kw_rule ";" TSemi; kw_rule "+" TPlus; kw_rule "-" TMinus; kw_rule "*" TTimes;
+    kw_rule "/" TDivide; kw_rule "%" TReminder; kw_rule "!" TLogicalNot; kw_rule "~" TBinaryNot;
+    kw_rule "^" TXor; kw_rule "&" TAnd; kw_rule "|" TOr; kw_rule "<<" TShiftLeft;
+    kw_rule ">>" TShiftRight; kw_rule "=" TEqual; kw_rule "!=" TNotEqual;
+    kw_rule "<=" TLessThanOrEqual; kw_rule ">=" TGreaterThanOrEqual; kw_rule "<" TLessThan;
+    kw_rule ">" TGreaterThan; kw_rule "(" TLParen; kw_rule ")" TRParen;
+    (Some TEol, lit_re [10]) ].
+
+Definition canonical_hlex_rules : list (rule htk) :=
+  [ (Some HName, canon_hname); (None, canon_ws); (Some HEol, lit_re [10]) ].
 
 (* the kinds of the keyword tokens *)
 Definition keyword_kind (k : tk) : Prop := exists w, In (w, k) gen_keywords.
